@@ -145,7 +145,21 @@ def run_property(pid, mod, tier, replay):
                 for f in load_known().get("findings", []):
                     if f.get("property") == pid and f.get("minimal_input") is not None:
                         fc(ctx, f["minimal_input"])
-            mod.run(ctx)
+            try:
+                mod.run(ctx)
+            except Infra:
+                raise
+            except Exception as e:
+                # an exception that escapes from /repo's code while the harness drives it (a call the unchanged tree answers)
+                # is the implementation's behaviour, not a harness error: record it as a broken tie and go on to the search
+                tb = traceback.extract_tb(e.__traceback__)
+                inrepo = [fr for fr in tb if str(common.REPO) in fr.filename]
+                if not inrepo:
+                    raise
+                where = f"{os.path.relpath(inrepo[-1].filename, common.REPO)}:{inrepo[-1].lineno} ({inrepo[-1].name})"
+                print(f"[{pid}] the real code raised {type(e).__name__}: {str(e)[:200]} at {where} while the harness was driving it")
+                ctx.disagree("harness.call_into_repo", {"where": where, "harness_frame": f"{tb[-len(inrepo)-1].name if len(tb) > len(inrepo) else '?'}"},
+                             f"{type(e).__name__}: {str(e)[:300]}", "the unchanged tree answers this call", note="unexpected exception from /repo")
         # ------------------------------------------------------------ failing-input search
         _kn = load_known()
         if (ctx.disagreements or ctx.broken_obligations) and not [v for v in ctx.violations if not matches_known(pid, v, _kn)]:
